@@ -182,6 +182,15 @@ class C11(Check):
             other = bytes([mask[0] ^ 0x0F, mask[1], mask[2] ^ 0x81])
             if RS.check(w, other):
                 fail("C11.mask", mclass, f"word {w.hex()} generated under mask {mask_hex} is accepted under mask {other.hex()}", dict(sub, check_mask=other.hex()))
+            if mname == "random":  # same octets in mutable containers (legal, unusual): same word, same verdict, caller's buffers untouched
+                mb, kb = bytearray(msg), bytearray(mask)
+                w2 = RS.generate(mb, kb)
+                if bytes(w2) != bytes(w) or bytes(mb) != msg or bytes(kb) != mask:
+                    fail("C11.container", mclass, f"generate(bytearray({msg.hex()}), bytearray({mask_hex})) = {bytes(w2).hex()} (buffers after: {bytes(mb).hex()}, {bytes(kb).hex()}), "
+                         f"with bytes arguments {w.hex()}", sub)
+                wb = bytearray(w)
+                if not RS.check(wb, kb) or bytes(wb) != bytes(w):
+                    fail("C11.container", mclass, f"check(bytearray({w.hex()}), bytearray({mask_hex})) rejects / alters a word it accepts as bytes", sub)
             res["cov"].add(f"{mclass}|{mname}|w0|-|-")
             return w
 
